@@ -471,7 +471,7 @@ Qed.
 
 Lemma memory_maps_data ex content D : strip content = D -> D <> [] ->
   memory_maps Alive ex (FContent content) = maps_of_data ex D.
-Proof. intros E Hne. unfold memory_maps, with_file. rewrite E. destruct D; [congruence|reflexivity]. Qed.
+Proof. intros E Hne. unfold memory_maps, with_file. rewrite fstrip_strip, E. destruct D; [congruence|reflexivity]. Qed.
 
 Lemma count1_nonnil f ls : count_fig f ls = 1%nat -> ls <> [].
 Proof. destruct ls; [discriminate|congruence]. Qed.
